@@ -19,7 +19,10 @@ b == QDen
 RECURSIVE Ch(_,_), IPow(_,_)
 Ch(nn, k) == IF k < 0 \/ k > nn THEN 0 ELSE IF k = 0 THEN 1 ELSE (Ch(nn, k-1) * (nn - k + 1)) \div k
 IPow(x, e) == IF e = 0 THEN 1 ELSE x * IPow(x, e - 1)
-M(k) == IF k < 0 \/ k > n THEN 0 ELSE Ch(n, k) * IPow(a, k) * IPow(b - a, n - k)
+\* (a zero factor is taken first: with both factors >= 1 every partial product is <= b^n)
+M(k) == IF k < 0 \/ k > n THEN 0
+        ELSE IF (a = 0 /\ k > 0) \/ (a = b /\ k < n) THEN 0
+        ELSE Ch(n, k) * IPow(a, k) * IPow(b - a, n - k)
 Den == IPow(b, n)
 RECURSIVE MassR(_,_)
 MassR(l, r) == IF l >= r THEN 0 ELSE M(l) + MassR(l + 1, r)          \* buckets l..r-1
